@@ -308,6 +308,23 @@ def run(p: Program, rep: Report, tier: str) -> None:
         res = ("call", calls[0].a, calls[0].b, calls[0].c, calls[0].tag)
         stores = [e for e in pa.events if e.kind == "store" and e.a[0] == "sub" and e.a[1] == ("attr", ("param", "obj"), "__dict__")]
         awaitable = any(t and f[0] == "call" and f[1] == ("ext", "inspect.isawaitable") for f, t in pa.facts)
+        if awaitable and not stores:
+            # the store deferred into a coroutine: an `async def` of the descriptor writes `<obj>.__dict__[...]` after an await
+            deferred = None
+            for m_ in cp.methods.values():
+                if not isinstance(m_.node, ast.AsyncFunctionDef):
+                    continue
+                aw = [n.lineno for n in ast.walk(m_.node) if isinstance(n, ast.Await)]
+                for n in ast.walk(m_.node):
+                    if isinstance(n, ast.Assign) and any(isinstance(t, ast.Subscript) and isinstance(t.value, ast.Attribute) and t.value.attr == "__dict__" for t in n.targets) \
+                            and any(l_ <= n.lineno for l_ in aw):
+                        deferred = (m_, n)
+            if deferred is not None:
+                rep.violation("R10.2", construct(get, text=f"cache entry written by the coroutine {deferred[0].name} after its await"), where(deferred[0], deferred[1]),
+                              f"cached_property.__get__ returns a future for an awaitable result and leaves the instance __dict__ entry to `{deferred[0].name}`, which writes it only after "
+                              "awaiting the result: every access made while the first one is still suspended (two tasks awaiting request.body / json / form, an un-awaited access followed by "
+                              "another) finds no entry, runs the accessor again and hits the consumed stream instead of sharing the one result", positive=True)
+                continue
         if len(stores) != 1:
             rep.violation("R10.2", construct(get, text="no store into obj.__dict__"), where(get), "cached_property does not store the computed value in the instance __dict__ (recomputed on every access)")
             continue
